@@ -107,6 +107,12 @@ class C08Oracle(worldprop.Oracle):
                 self.fail(idx, "unified() changed the original", doc=di)
             if u is d or u._namespaces is d._namespaces:
                 self.fail(idx, "unified() did not return an independent document", doc=di)
+            # "returns a new document ... leaves the original unchanged": no bundle object of the original is part of
+            # the result, and the original's bundles still belong to the original
+            if any(ub is sb for ub in u.bundles for sb in d.bundles):
+                self.fail(idx, "unified() result shares a bundle object with the original", doc=di)
+            if any(sb.document is not d or sb._namespaces.parent is not d._namespaces for sb in d.bundles):
+                self.fail(idx, "unified() re-parented a bundle of the original", doc=di)
             # bundles kept under the same identifiers
             ids_src = sorted(b.identifier.uri for b in d.bundles)
             ids_u = sorted(b.identifier.uri for b in u.bundles)
@@ -127,6 +133,15 @@ class C08Oracle(worldprop.Oracle):
                     self.fail(idx, "unified() is not idempotent", doc=di)
             except Exception as e:
                 self.fail(idx, "unified() of a unified document raised", doc=di, exc=repr(e))
+            # the result is a structure of its own: writing to it does not reach the original
+            try:
+                for uc in [u] + list(u.bundles):
+                    uc.add_namespace("zzu", "http://zz.test/u/")
+                    uc.entity("zzu:probe")
+            except Exception as e:
+                self.fail(idx, "the unified() result does not accept new records", doc=di, exc=repr(e))
+            if observable_doc(d) != before:
+                self.fail(idx, "writing to the unified() result changed the original", doc=di)
 
 
 def classify(f, ops):
